@@ -43,6 +43,8 @@ def main():
     if a.shard:
         common.shard_main(mod, a.shard[0], a.shard[1])
         return 0
+    # the orchestrator only reads results (witnesses may hold ints of thousands of digits); shards keep the interpreter's default
+    sys.set_int_max_str_digits(0)
 
     if a.replay:
         with open(a.replay) as f:
